@@ -7,6 +7,8 @@ import os
 import shutil
 import tempfile
 
+import json
+
 import numpy as np
 
 from . import tlcrun
@@ -42,8 +44,20 @@ def item(l, lab):
     return UNKNOWN[l] if lab == 0 else DIMOBJ[l].items[lab - 1]
 
 
+SPECIAL_VALUES = False      # fourth concretisation (run_vector): some cell values are +-inf or of extreme magnitude
+
+
 def val(v):
-    return np.nan if v == BLANK else float(v) + 0.25
+    if v == BLANK:
+        return np.nan
+    if SPECIAL_VALUES and v != 0:
+        # the import / export contract does not look at the values: whatever float a cell holds must arrive under its labels
+        k = int(v) % 5
+        if k in (1, 2, 3, 4):
+            # (the large and small ones have short decimal expansions: pandas' default CSV parser is not exact to the last bit
+            #  for long ones - first seen as a 1-ulp "difference" at 1e300 that was the harness's own CSV round trip)
+            return {1: float("inf"), 2: float("-inf"), 3: 1e15 * int(v), 4: int(v) / 1024.0}[k]
+    return float(v) + 0.25
 
 
 def header(l, pos, hdr):
@@ -119,7 +133,7 @@ def expected_values(vec):
     a = np.zeros(shape)
     for t, v in vec["result"]:
         idx = tuple(t[CANON.index(l)] - 1 for l in ds)
-        a[idx] = 0.0 if v == 0 else float(v) + 0.25
+        a[idx] = 0.0 if v == 0 else val(v)
     return a
 
 
@@ -154,7 +168,9 @@ def run_import(vec):
                 if call == "from_df":
                     got = FlodymArray.from_df(dims=dims, df=df, allow_missing_values=missing, allow_extra_values=extra).values
                 elif call == "set_values_from_df":
-                    target = FlodymArray(dims=dims, values=np.full(tuple(d.len for d in dims), -5.0))
+                    # (the array that receives the table may hold values of any dtype; what is imported does not depend on it)
+                    tdt = [np.float64, np.float32, np.int64, np.float64, np.int8][(len(vec.get("rows", [])) + len(vec["ds"])) % 5]
+                    target = FlodymArray(dims=dims, values=np.full(tuple(d.len for d in dims), -5.0).astype(tdt))
                     target.set_values_from_df(df, allow_missing_values=missing, allow_extra_values=extra)
                     got = target.values
                 elif call == "excel_reader":
@@ -183,7 +199,7 @@ def run_import(vec):
                     problems.append(tag + tag0 + f" raised {type(raised).__name__}: {str(raised)[:160]}; the table is complete and consistent "
                                                  f"for these flags")
                 if target is not None and not np.all(target.values == -5.0):
-                    problems.append(tag + "{C12} the target array was changed although the import was refused")
+                    problems.append(tag + "{C12,C13} the target array was changed although the import was refused")
                 continue
             # accepting a faulty table / placing entries that do not come from the unique row with their labels also
             # violates C11 ("whenever from_df returns at all, every entry it sets comes from the unique row ...")
@@ -191,7 +207,7 @@ def run_import(vec):
             if outcome == "error":
                 problems.append(tag + tag1 + " accepted a table that must be refused")
                 continue
-            if got.shape != want.shape or not np.allclose(got, want, rtol=0, atol=1e-12, equal_nan=False):
+            if got.shape != want.shape or not (np.array_equal(got, want) if SPECIAL_VALUES else np.allclose(got, want, rtol=0, atol=1e-12, equal_nan=False)):
                 bad = [(idx, got[idx], want[idx]) for idx in np.ndindex(*want.shape) if not (got.shape == want.shape and abs(got[idx] - want[idx]) <= 1e-12)][:3] \
                     if got.shape == want.shape else got.shape
                 problems.append(tag + tag1 + f" entries differ from the rows carrying their labels: (index, got, want) {bad}")
@@ -241,7 +257,9 @@ def run_export(vec):
     for sparse in (False, True):
         vals = base.copy()
         if sparse:
-            vals[(vals * 4).astype(int) % 3 == 0] = 0.0     # a deterministic pattern of zeros
+            with np.errstate(all="ignore"):
+                fin = np.where(np.isfinite(vals) & (np.abs(vals) < 1e9), vals, 1.0)
+            vals[(fin * 4).astype(int) % 3 == 0] = 0.0      # a deterministic pattern of zeros
             if vec["styleid"] % 2 == 1 and vals.ndim >= 1 and vals.shape[0] > 1:
                 vals[0, ...] = 0.0                            # an item whose whole slice is zero does not occur in the sparse frame at all
             nz = np.argwhere(vals != 0)
@@ -313,13 +331,14 @@ def run_vector(vec):
     global DIMOBJ
     fn = run_import if vec["op"] == "import" else run_export
     problems = fn(vec)
-    if not problems and (len(vec.get("rows", [])) + len(vec["ds"]) + vec.get("styleid", 0)) % 3 == 0:
+    sel = (len(vec.get("rows", [])) + len(vec["ds"]) + vec.get("styleid", 0) + len(json.dumps(vec.get("result", [])))) % 6
+    if not problems and sel == 0:
         DIMOBJ = DIMSETS[1]
         try:
             problems = ["[items of every dimension listed in another order] " + p for p in fn(vec)]
         finally:
             DIMOBJ = DIMSETS[0]
-    elif not problems and (len(vec.get("rows", [])) + len(vec["ds"]) + vec.get("styleid", 0)) % 3 == 1:
+    elif not problems and sel == 1:
         # third concretisation: the SAME Dimension objects (just used above), their items replaced by the other item lists - by
         # assignment or in place; whatever an object remembers about its items from the earlier import / export must not be used
         saved = {l: list(d.items) for l, d in DIMOBJ.items()}
@@ -333,6 +352,13 @@ def run_vector(vec):
         finally:
             for l, d in DIMOBJ.items():
                 d.items = saved[l]
+    if not problems and sel == 2:
+        global SPECIAL_VALUES
+        SPECIAL_VALUES = True
+        try:
+            problems = ["[cell values +inf / -inf / 1e15 x / 2^-10 x] " + p for p in fn(vec)]
+        finally:
+            SPECIAL_VALUES = False
     return problems
 
 
